@@ -79,7 +79,7 @@ def make_computer(c):
     energy=, kaldi=).  L and S are in samples; the bank's rate converts them."""
     from pydrobert.speech import compute
 
-    bank = make_bank(c["bank"])
+    bank = c["bank_obj"] if c.get("bank_obj") is not None else make_bank(c["bank"])
     rate = bank.sampling_rate
     ms = lambda n: (n + 0.5) * 1000.0 / rate  # robust against int() truncation  # noqa
     kw = dict(
